@@ -222,6 +222,8 @@ def explore(harness, params, fatal=None, deadline_s=300.0, validate=True,
             elif status == "noteval":
                 res.paths_noteval += 1
                 res.noteval_reasons[str(info)] = res.noteval_reasons.get(str(info), 0) + 1
+            if m is not None and status == "ok" and ctx.covers.get("__nontrivial__"):
+                res.nontrivial.add(hash(repr(evalm(ctx.trace_items, m))))
             # differential validation of the path against the real code run concretely
             if validate and m is not None and status in ("ok", "noteval"):
                 assignment = E.assignment(m)
@@ -239,9 +241,6 @@ def explore(harness, params, fatal=None, deadline_s=300.0, validate=True,
                            sym_trace[k] if k < len(sym_trace) else None,
                            con_trace[k] if k < len(con_trace) else None, assignment))
                 res.validated += 1
-                sig = cctx.covers.get("__nontrivial__")
-                if sig:
-                    res.nontrivial.add(hash(con_trace))
                 if len(res.samples) < 3 and (sample_every is None or res.paths % sample_every == 0):
                     res.samples.append({"inputs": _jsonable(assignment),
                                         "trace_head": _jsonable(con_trace[:12]),
